@@ -31,6 +31,8 @@ structure St where
   doneToks : List Nat := []     -- `o.instancesInfo[tok] = true`
   constructed : List Nat := []  -- ghost: protocol constructor calls
   handed : List (Nat × Nat) := []  -- ghost: (token, message) handed to an instance
+  peerAsked : Nat := 0          -- tree requests of peers (`handleRequestTree`)
+  peerAnswered : Nat := 0       -- … that were answered with the tree
   thr : List Th := []
   deriving Repr
 
@@ -40,6 +42,8 @@ inductive Act where
   | done (tok : Nat)          -- the instance declares itself done (`nodeDone`)
   | expire                    -- the removal timer fires
   | localStart (tok : Nat)    -- `CreateProtocol`: list the instance, then `RegisterTree`
+  | peerReq                   -- a peer asks for the tree (`handleRequestTree`: `treeStorage.Get`, no refresh)
+  | doneRefused (tok : Nat)   -- `Done()` with an `OnDoneCallback` that returns false: nothing happens
   deriving Repr
 
 def at_ (p : Pc) (t : Th) : Bool := t.pc == p
@@ -88,12 +92,17 @@ def step (s : St) : Act → Option St
         some { s with live := live', settled := s.settled.filter (· != tok),
                       doneToks := s.doneToks ++ [tok],
                       armed := if live' = [] then true else s.armed }
+      -- `Done()` once more on a finished instance: `nodeDelete` finds it "already gone" and returns
+      else if tok ∈ s.doneToks then some s
       else none
   | .expire => if s.armed then some { s with present := false, armed := false } else none
   | .localStart tok =>
       if tok ∈ s.live ∨ tok ∈ s.doneToks ∨ tok ∈ s.constructed then none
       else some { s with live := s.live ++ [tok], used := true,
                          thr := s.thr ++ [⟨tok, 0, .set⟩] }
+  | .peerReq => some { s with peerAsked := s.peerAsked + 1,
+                              peerAnswered := if s.present then s.peerAnswered + 1 else s.peerAnswered }
+  | .doneRefused tok => if tok ∈ s.settled ∧ s.thr.countP (regTok tok) = 0 then some s else none
 
 def run (s : St) : List Act → St
   | [] => s
@@ -199,7 +208,25 @@ def step (st : State) (toks : List String) : State × String :=
     | none => (st, obs x)
   -- a peer asks for the tree (`handleRequestTree`): answered iff present; nothing else changes — in
   -- particular a scheduled removal stays scheduled
-  | ["peerreq"] => (st, (if x.present then "answered " else "ignored ") ++ obs x)
+  | ["peerreq"] =>
+    match C11.step x .peerReq with
+    | some x1 => ({ st with s := x1 }, (if x1.peerAnswered > x.peerAnswered then "answered " else "ignored ") ++ obs x1)
+    | none => (st, "disabled")
+  -- `Done()` of an instance whose `OnDoneCallback` answers `0` (not yet) or `1` (go on)
+  | ["donecb", tok, "0"] =>
+    match tok.toNat? with
+    | some tok =>
+      match C11.step x (.doneRefused tok) with
+      | some x1 => ({ st with s := x1 }, obs x1)
+      | none => (st, "disabled")
+    | none => (st, "bad-op")
+  | ["donecb", tok, "1"] =>
+    match tok.toNat? with
+    | some tok =>
+      match C11.step x (.done tok) with
+      | some x1 => ({ st with s := x1 }, obs x1)
+      | none => (st, "disabled")
+    | none => (st, "bad-op")
   -- handler gating of the harness (`hold`: the handlers of an instance block, `release`: one returns):
   -- the model does not follow handlers (C05 does); the harness's oracle watches them
   | ["hold", tok] => if tok.toNat?.isSome then (st, "ok") else (st, "bad-op")
